@@ -44,6 +44,11 @@ CLAIMED = {
    text="All arrays up to length 3 (4 in the thorough tier) over three small alphabets with and without nil, in every Go representation, through every array filter, then random arrays, arrays of maps (sort/map by key) and chains; results are compared with reference functions, the input must iterate identically afterwards and its Go value's deep fingerprint must not change, and each representation must render like the equal []any.",
    note="Trusted: the reference functions in c15_test.go and hx/model.go, hx.Fingerprint. Unspecified: position of nil elements and order among ties in sort, sort of mixed kinds, join over nested containers.",
    ref="DESIGN.md 7.C15"),
+ "C16": dict(
+   technique="property-based testing: bounded-exhaustive strings x filters x arguments and rapid-generated long strings against per-filter reference functions and round-trip/idempotence relations",
+   text="All strings up to length 3 (4 thorough) over a 9-character alphabet with multi-byte characters and HTML/URL specials, through every string filter with all integer arguments -3..12 and short string arguments, plus random strings up to 200 characters, number/bool/nil receivers and split/join round trips, are compared with character-based reference functions, round-trip relations (escape/unescape, url_encode/url_decode), idempotence (escape_once) and UTF-8 validity.",
+   note="Trusted: Go's strings/unicode/html/net/url packages used as references. Unspecified: empty search strings, out-of-range slice arguments (only 'a piece, never longer'), truncate below the ellipsis length, truncatewords < 1, size of non-string receivers, malformed url_decode input.",
+   ref="DESIGN.md 7.C16"),
 }
 
 REASON_PENDING = "check not built yet in this snapshot of /verif (planned: see DESIGN.md section 7); nothing is claimed for it"
